@@ -21,33 +21,33 @@ def item(bin, target, quick, thorough, param=0, max_len=None, ubonly=False, fuzz
 
 
 PLAN = {
-    "C01": [item("h_stream", "c01_ans", 3_200_000, 96_000_000, max_len=(1024, 4096))],
-    "C02": [item("h_stream", "range_msg", 2_400_000, 64_000_000, param=2, max_len=(1024, 16384))],
-    "C04": [item("h_stream", "c04_bitsback", 3_200_000, 96_000_000, max_len=(1024, 8192))],
+    "C01": [item("h_stream", "c01_ans", 12_800_000, 96_000_000, max_len=(1024, 4096))],
+    "C02": [item("h_stream", "range_msg", 9_600_000, 64_000_000, param=2, max_len=(1024, 16384))],
+    "C04": [item("h_stream", "c04_bitsback", 12_800_000, 96_000_000, max_len=(1024, 8192))],
     "C06": [
-        item("h_stream", "ans_msg", 1_600_000, 48_000_000, param=6, max_len=(1024, 16384)),
-        item("h_stream", "range_msg", 1_600_000, 48_000_000, param=6, max_len=(1024, 16384)),
+        item("h_stream", "ans_msg", 6_400_000, 48_000_000, param=6, max_len=(1024, 16384)),
+        item("h_stream", "range_msg", 6_400_000, 48_000_000, param=6, max_len=(1024, 16384)),
         item("h_model", "c06_golden", 2, 2, fuzz_runs=0),  # byte-exact vectors from the project's documentation (case bytes ignored)
     ],
     "C07": [
-        item("h_stream", "c07_range", 1_600_000, 48_000_000, max_len=(1024, 8192)),
-        item("h_stream", "c07_ans", 1_600_000, 48_000_000, max_len=(1024, 8192)),
+        item("h_stream", "c07_range", 6_400_000, 48_000_000, max_len=(1024, 8192)),
+        item("h_stream", "c07_ans", 6_400_000, 48_000_000, max_len=(1024, 8192)),
     ],
     "C08": [
-        item("h_stream", "c08_ans", 1_600_000, 48_000_000, max_len=(1024, 8192)),
-        item("h_stream", "c08_range", 1_600_000, 48_000_000, max_len=(1024, 8192)),
-        item("h_symbol", "c16_bits", 800_000, 24_000_000, param=8, max_len=(1024, 8192)),
+        item("h_stream", "c08_ans", 6_400_000, 48_000_000, max_len=(1024, 8192)),
+        item("h_stream", "c08_range", 6_400_000, 48_000_000, max_len=(1024, 8192)),
+        item("h_symbol", "c16_bits", 3_200_000, 24_000_000, param=8, max_len=(1024, 8192)),
     ],
-    "C11": [item("h_stream", "c11_suffix", 1_600_000, 64_000_000, max_len=(2048, 2048))],
+    "C11": [item("h_stream", "c11_suffix", 6_400_000, 64_000_000, max_len=(2048, 2048))],
     "C12": [
         item("h_stream", "ans_msg", 1_600_000, 32_000_000, param=12, max_len=(1024, 16384)),
         item("h_stream", "range_msg", 1_600_000, 32_000_000, param=12, max_len=(1024, 16384)),
     ],
-    "C13": [item("h_chain", "c13_chain", 2_400_000, 64_000_000, max_len=(1024, 8192))],
-    "C14": [item("h_chain", "c14_chain", 2_400_000, 64_000_000, max_len=(1024, 8192))],
-    "C15": [item("h_symbol", "c15_huffman", 800_000, 24_000_000, max_len=(2048, 16384))],
-    "C16": [item("h_symbol", "c16_bits", 2_400_000, 64_000_000, param=16, max_len=(1024, 8192))],
-    "C17": [item("h_symbol", "c17_backends", 2_400_000, 64_000_000, max_len=(1024, 8192))],
+    "C13": [item("h_chain", "c13_chain", 9_600_000, 64_000_000, max_len=(1024, 8192))],
+    "C14": [item("h_chain", "c14_chain", 9_600_000, 64_000_000, max_len=(1024, 8192))],
+    "C15": [item("h_symbol", "c15_huffman", 3_200_000, 24_000_000, max_len=(2048, 16384))],
+    "C16": [item("h_symbol", "c16_bits", 9_600_000, 64_000_000, param=16, max_len=(1024, 8192))],
+    "C17": [item("h_symbol", "c17_backends", 9_600_000, 64_000_000, max_len=(1024, 8192))],
     "C18": [
         item("h_stream", "ans_sizes", 1_200_000, 32_000_000, max_len=(1024, 8192)),
         item("h_stream", "range_msg", 1_200_000, 32_000_000, param=18, max_len=(1024, 16384)),
@@ -68,11 +68,11 @@ PLAN = {
         item("h_model", "leaky", 48_000, 2_000_000, param=19, max_len=(2048, 4096), fuzz_runs=160_000),
     ],
     "C10": [
-        item("h_model", "c10_decode", 1_600_000, 48_000_000, max_len=(2048, 16384)),
+        item("h_model", "c10_decode", 6_400_000, 48_000_000, max_len=(2048, 16384)),
         # chain coder over arbitrary data with change_precision between symbols (C10 oracle only)
-        item("h_chain", "c13_chain", 600_000, 16_000_000, param=10, max_len=(1024, 8192)),
+        item("h_chain", "c13_chain", 2_400_000, 16_000_000, param=10, max_len=(1024, 8192)),
     ],
-    "C09": [item("h_model", "c09_impossible", 1_600_000, 48_000_000, max_len=(2048, 16384))],
+    "C09": [item("h_model", "c09_impossible", 6_400_000, 48_000_000, max_len=(2048, 16384))],
     "C20": [
         item("h_model", "c20_unsafe", 1_600_000, 64_000_000, max_len=(1024, 4096)),
         item("h_model", "categorical", 400_000, 16_000_000, param=19, max_len=(2048, 16384), ubonly=True, fuzz_runs=800_000),
